@@ -9,7 +9,9 @@
 //!
 //! Case syntax (hex numbers):
 //!   h <local> <local_dc> LAYOUT <nsteps> { <level> <total_nodes> HINT }*
-//!   a <local> <local_dc> <nops> { s LAYOUT | g <level> HINT | x <level> }*
+//!   a <local> <local_dc> <nops> { s LAYOUT | w LAYOUT | g <level> HINT | x <level> }*
+//!     (`w LAYOUT`: the membership is handed, as a snapshot, to the real membership watcher
+//!      `watch_membership_changes`, which computes the layout for the selector itself)
 //!   LAYOUT = <ndcs> { <name> <nnodes> <addr>* }*      HINT = - | ! | <k> <addr>*k
 //! HINT repeats the implementation's answer; the model driver uses it only to recover the
 //! random `choose_multiple` result (see ocaml/selector/modelrun.ml).  With `--replay` the
@@ -20,8 +22,26 @@ use std::collections::{BTreeMap, BTreeSet};
 use std::net::{IpAddr, Ipv4Addr, SocketAddr};
 use std::time::{Duration, Instant};
 
-use datacake_node::verif::{set_nodes, start_node_selector, NodeCycler};
-use datacake_node::{Consistency, ConsistencyError, DCAwareSelector, NodeSelector, Nodes};
+use datacake_node::verif::{
+    run_membership_watcher,
+    set_nodes,
+    start_node_selector,
+    NodeCycler,
+    NodeMembership,
+};
+use datacake_node::{
+    ClusterMember,
+    ClusterStatistics,
+    Consistency,
+    ConsistencyError,
+    DCAwareSelector,
+    MembershipChange,
+    NodeSelector,
+    Nodes,
+    RpcNetwork,
+};
+use tokio::sync::watch;
+use tokio_stream::wrappers::WatchStream;
 use hxcommon::{no_panic, quiet_panics, Args, CaseWriter, Rng};
 
 type Layout = Vec<(u64, Vec<u64>)>; // ascending data-centre names (a BTreeMap)
@@ -274,6 +294,8 @@ fn do_history(w: &mut CaseWriter, local: u64, local_dc: u64, lay: &Layout, steps
 #[derive(Clone)]
 enum AOp {
     Set(Layout),
+    /// the membership reaches the selector through the node's membership watcher
+    Watch(Layout),
     Get(usize),
     Expire(usize),
 }
@@ -288,6 +310,7 @@ fn run_actor(
 ) -> Option<Vec<Option<Out>>> {
     let outs = std::cell::RefCell::new(Vec::<Option<Out>>::new());
     let uncertain = std::cell::Cell::new(false);
+    let stuck = std::cell::Cell::new(false);
     let done = no_panic(|| {
         rt.block_on(async {
             let handle =
@@ -295,6 +318,11 @@ fn run_actor(
                     .await;
             // when each level's cache entry was (at the earliest) created
             let mut cached: [Option<Instant>; 8] = [None; 8];
+            // the membership watcher of this node, started on its first snapshot
+            let mut snap_tx: Option<watch::Sender<NodeMembership>> = None;
+            let (ctx, crx) = watch::channel(MembershipChange::default());
+            let mut ctx = Some(ctx);
+            let mut probe = crx.clone();
             let mut i = 0;
             while i < ops.len() {
                 match &ops[i] {
@@ -304,6 +332,50 @@ fn run_actor(
                             m.insert(dc_name(*d), nodes_of(ns));
                         }
                         set_nodes(&handle, m).await;
+                        cached = [None; 8];
+                        outs.borrow_mut().push(None);
+                    },
+                    AOp::Watch(l) => {
+                        let m: NodeMembership = l
+                            .iter()
+                            .flat_map(|(d, ns)| {
+                                ns.iter().map(move |a| {
+                                    let id = *a as u8;
+                                    (id, ClusterMember::new(id, addr(*a), dc_name(*d).to_string()))
+                                })
+                            })
+                            .collect();
+                        match &snap_tx {
+                            None => {
+                                let (stx, srx) = watch::channel(m);
+                                snap_tx = Some(stx);
+                                tokio::spawn(run_membership_watcher(
+                                    local as u8,
+                                    RpcNetwork::default(),
+                                    handle.clone(),
+                                    ClusterStatistics::default(),
+                                    WatchStream::new(srx),
+                                    ctx.take().unwrap(),
+                                ));
+                            },
+                            Some(stx) => {
+                                let _ = stx.send(m);
+                            },
+                        }
+                        // let the watcher run until it has handled the snapshot
+                        let mut n = 0;
+                        loop {
+                            tokio::task::yield_now().await;
+                            if probe.has_changed().unwrap_or(false) {
+                                probe.borrow_and_update();
+                                break;
+                            }
+                            n += 1;
+                            if n > 500 {
+                                stuck.set(true);
+                                break;
+                            }
+                        }
                         cached = [None; 8];
                         outs.borrow_mut().push(None);
                     },
@@ -347,11 +419,19 @@ fn run_actor(
             });
         }
     }
+    if stuck.get() {
+        // the watcher never handled a snapshot: every later answer is about a stale layout
+        WATCHER_STUCK.with(|c| c.set(true));
+    }
     if uncertain.get() {
         None
     } else {
         Some(outs)
     }
+}
+
+thread_local! {
+    static WATCHER_STUCK: std::cell::Cell<bool> = std::cell::Cell::new(false);
 }
 
 fn do_actor(
@@ -377,6 +457,7 @@ fn do_actor(
     for (op, o) in ops.iter().zip(&outs) {
         match op {
             AOp::Set(l) => case.push_str(&format!(" s {}", show_layout(l))),
+            AOp::Watch(l) => case.push_str(&format!(" w {}", show_layout(l))),
             AOp::Get(lv) => {
                 case.push_str(&format!(" g {} {}", LEVELS[*lv].1, o.as_ref().unwrap().hint()))
             },
@@ -388,16 +469,22 @@ fn do_actor(
         .map(|o| o.as_ref().map(|o| o.show()).unwrap_or_else(|| "-".into()))
         .collect();
     w.case(&case, &res.join(" | "));
+    if WATCHER_STUCK.with(|c| c.replace(false)) {
+        w.fail("watcher-ignores-snapshot", &case, "the membership watcher did not handle a snapshot it was handed");
+    }
     let empty: Layout = Vec::new();
     let mut cur: &Layout = &empty;
     let mut nsets = 0;
     let mut seen: [bool; 8] = [false; 8];
     for (i, (op, o)) in ops.iter().zip(&outs).enumerate() {
         match op {
-            AOp::Set(l) => {
+            AOp::Set(l) | AOp::Watch(l) => {
                 cur = l;
                 nsets += 1;
                 seen = [false; 8];
+                if matches!(op, AOp::Watch(_)) {
+                    w.stats.hit("actor_layout_through_watcher");
+                }
             },
             AOp::Get(lv) => {
                 let total = cur.iter().map(|(_, ns)| ns.len()).sum();
@@ -602,6 +689,35 @@ fn gen_actor_exhaustive(w: &mut CaseWriter, rt: &tokio::runtime::Runtime) {
     }
 }
 
+/// The membership reaches the selector the way it does in a running node: through
+/// `watch_membership_changes`.  Layouts of 1..3 data centres x 1..4 nodes, every local
+/// position, every level, then a second snapshot (one node more or fewer) and every level
+/// again: the selection must be right for the membership of the last snapshot.
+fn gen_actor_watcher(w: &mut CaseWriter, rt: &tokio::runtime::Runtime, thorough: bool) {
+    let mut layouts = Vec::new();
+    for k in 1..=3 {
+        layouts.extend(size_vectors(k, 1, if k == 3 && !thorough { 2 } else { 4 }));
+    }
+    for sizes in &layouts {
+        let lay = layout_of_sizes(sizes);
+        let mut bigger = sizes.clone();
+        *bigger.last_mut().unwrap() += 1;
+        let lay2 = layout_of_sizes(&bigger);
+        for (d, ns) in &lay {
+            for a in ns {
+                let mut ops = vec![AOp::Watch(lay.clone())];
+                ops.extend((0..8).map(AOp::Get));
+                ops.push(AOp::Watch(lay2.clone()));
+                ops.extend((0..8).rev().map(AOp::Get));
+                ops.push(AOp::Watch(lay.clone()));
+                ops.extend([4, 5, 7, 6].map(AOp::Get));
+                do_actor(w, rt, *a, *d, &ops);
+                w.stats.hit("actor_watcher_sequences");
+            }
+        }
+    }
+}
+
 fn gen_actor_random(w: &mut CaseWriter, rt: &tokio::runtime::Runtime, rng: &mut Rng, count: u64) {
     for _ in 0..count {
         // a universe of 4 data centres x 4 addresses; a layout picks a subset; sometimes a
@@ -721,6 +837,7 @@ fn replay_line(w: &mut CaseWriter, rt: &tokio::runtime::Runtime, line: &str) {
             let ops: Vec<AOp> = (0..n)
                 .map(|_| match t.s() {
                     "s" => AOp::Set(t.layout()),
+                    "w" => AOp::Watch(t.layout()),
                     "g" => {
                         let lv = level_index(t.s());
                         t.skip_hint();
@@ -759,6 +876,7 @@ fn main() {
     gen_actor_exhaustive(&mut w, &rt);
     let n_actor_exh = w.n - n_before_actor;
     gen_actor_random(&mut w, &rt, &mut rng, if args.thorough() { 60_000 } else { 4_000 });
+    gen_actor_watcher(&mut w, &rt, args.thorough());
     gen_actor_expiry(&mut w, &rt, if args.thorough() { 5 } else { 1 });
     let n_actor = w.n - n_before_actor;
     w.finish(&[
